@@ -205,7 +205,13 @@ pub fn verify(case: &Value, reg: &Registry, scratch: &Path, idx: usize) -> Value
     let mut last_summary: Option<Value> = None;
     for _ in 0..reps {
         // parse afresh for every repetition: fresh maps, fresh hash seeds
-        let parsed = guarded(|| serde_json::from_str::<Metablock>(layout_text));
+        // (a layout built in memory is never read from text: the text of the case is then only a label)
+        let parsed = if case.get("build_in_memory").is_some() {
+            Ok(Ok(Metablock { signatures: Vec::new(), metadata: in_toto::models::MetadataWrapper::Link(
+                in_toto::models::LinkMetadataBuilder::new().name("placeholder".into()).build().expect("harness: placeholder")) }))
+        } else {
+            guarded(|| serde_json::from_str::<Metablock>(layout_text))
+        };
         let layout = match parsed {
             Ok(Ok(l)) => l,
             Ok(Err(e)) => {
